@@ -240,7 +240,7 @@ pub fn miri_slice(r: &mut Report, n: usize, shard: usize) -> usize {
 
 pub fn run(ctx: &Ctx) -> i32 {
     let mut report = ctx.report("C16", "exploration");
-    report.rule = "exhaustive: (style, length, trailing-data) for every representable length of BER-TLV/APDU (0..65535), LLVAR (0..99), LLLVAR (0..999), Fixed<1..17> (payload 0..N) with trailing data of 0/1/300 bytes; plus every byte string of length 0..3 through the four prefix parsers. A case is non-trivial when the statement claims a definite outcome for it (all round-trip cases; parser inputs whose prefix bytes are well-formed for the style). Distinct = distinct (style,length,trailing) / (parser,input).".into();
+    report.rule = "exhaustive: (style, length, trailing-data) for every representable length of BER-TLV/APDU (0..65535), LLVAR (0..99), LLLVAR (0..999), Fixed<1..17> (payload 0..N) with trailing data of 0/1/300 bytes and, for the two-byte-length styles, trailing data of exactly len-1, len, len+1 and byte-swapped-len bytes; plus every byte string of length 0..3 through the four prefix parsers. A case is non-trivial when the statement claims a definite outcome for it (all round-trip cases; parser inputs whose prefix bytes are well-formed for the style). Distinct = distinct (style,length,trailing) / (parser,input).".into();
     report.exhaustive = Some(true);
     report.assumptions = vec![
         "independent shortest-form formulas and prefix parsers of refcodec::codec are the oracle".into(),
@@ -249,12 +249,22 @@ pub fn run(ctx: &Ctx) -> i32 {
     let trailing300: Vec<u8> = (0..300u32).map(|i| (i * 7 + 1) as u8).collect();
     // (a) round trips, sharded by length
     let threads = ctx.threads;
+    let quick = ctx.quick();
+    let big: Vec<u8> = (0..65537u32).map(|i| (i * 13 + 5) as u8).collect();
     sharded(&mut report, threads, |shard, r| {
         for st in STYLES {
             let mut n = shard;
             while n <= st.max() {
                 for t in [&[][..], &[0x5a][..], &trailing300[..]] {
                     check_roundtrip(r, st, n, t);
+                }
+                // trailing data whose length is related to the encoded length itself (exactly the announced
+                // payload, one less, one more, and the byte-swapped length): quick on a stride, thorough on all
+                if matches!(st, Style::Ber | Style::Apdu) && (n < 1024 || !quick || n % 61 == shard % 61) {
+                    let swapped = ((n & 0xff) << 8) | (n >> 8);
+                    for tl in [n.saturating_sub(1), n, n + 1, swapped] {
+                        check_roundtrip(r, st, n, &big[..tl.min(big.len())]);
+                    }
                 }
                 n += threads;
             }
